@@ -11,7 +11,8 @@ The checker executes a BARRIER_WAIT only when enabled (granted); here it may als
 registers (phase 2) and is answered by the BARRIER_ASYNC_LOCK that completes the group, as in a normal run.
 Ghosts: `phase a` = 0 outside the barrier, 1 = holds an acquisition (BARRIER_ASYNC_LOCK done, BARRIER_WAIT not executed),
 2 = blocked in BARRIER_WAIT; `arrF` = (actor, `was_last()` read in its BARRIER_ASYNC_LOCK) in arrival order; `retF` =
-(actor, value returned by its wait) in the order the kernel answers; `groups` = number of times the barrier opened.
+(actor, value returned by its wait) in the order the kernel answers; `groups` = number of times the barrier opened;
+`pendT` = the actors whose BARRIER_ASYNC_LOCK completed a group and that have not executed their BARRIER_WAIT yet.
 An actor inside the barrier cannot arrive again; a BARRIER_WAIT needs an acquisition not yet waited (`illFormed`).
 No Mathlib.
 -/
@@ -32,6 +33,7 @@ structure SSt where
   arrF : List (Aid × Bool) := []
   retF : List (Aid × Bool) := []
   groups : Nat := 0
+  pendT : List Aid := []     -- ghost: the actors that completed a group and have not executed their BARRIER_WAIT yet
 
 def SSt.init (n : Nat) : SSt :=
   { b := { expected := n }, hgrant := fun _ => false, hlast := fun _ => false, phase := fun _ => 0 }
@@ -51,12 +53,14 @@ def sstep (s : SSt) : BEv → Except Err SSt
             phase := fun x => if x = a then 1 else if (woken r.2.2).contains x then 0 else s.phase x,
             arrF := s.arrF ++ [(a, r.1.wasLast)],
             retF := s.retF ++ (woken r.2.2).map (fun x => (x, false)),
-            groups := if r.2.1 then s.groups + 1 else s.groups }
+            groups := if r.2.1 then s.groups + 1 else s.groups,
+            pendT := if r.2.1 then s.pendT ++ [a] else s.pendT }
   | .wait a =>
     if s.phase a ≠ 1 then .error .illFormed
     else
       let r := s.b.waitFor a (s.hgrant a)
-      .ok (if r.2 then { s with b := r.1, phase := upd s.phase a 0, retF := s.retF ++ [(a, s.hlast a)] }
+      .ok (if r.2 then { s with b := r.1, phase := upd s.phase a 0, retF := s.retF ++ [(a, s.hlast a)],
+                                pendT := s.pendT.erase a }
            else { s with b := r.1, phase := upd s.phase a 2 })
 
 def srun (s : SSt) : List BEv → Except Err SSt
